@@ -46,7 +46,7 @@ def modelState (T : ZTable) (p : Position) : String :=
   let f := fen p
   let fresh := ofFen T f
   "fen=" ++ f ++ "|key=" ++ hex16 p.hash.key ++ "|pkey=" ++ hex16 p.hash.pawnK ++
-  "|fkey=" ++ hex16 fresh.hash.key ++ "|fpkey=" ++ hex16 fresh.hash.pawnK ++
+  "|fkey=" ++ hex16 fresh.hash.key ++ "|fpkey=" ++ hex16 fresh.hash.pawnK ++ "|ffen=" ++ fen fresh ++
   "|chk=" ++ b2s (isInCheck p p.side) ++ "|mate=" ++ b2s (isCheckmate p) ++ "|stale=" ++ b2s (isStalemate p) ++
   "|rep=" ++ b2s (isRepeated p) ++ "|three=" ++ b2s (threefold p) ++ "|r50=" ++ b2s (rule50 p) ++
   "|mat=" ++ b2s (enoughMaterial p) ++ "|draw=" ++ b2s (isDraw p) ++
@@ -65,7 +65,7 @@ def specState (T : ZTable) (s : SState) : String :=
   let r50 := decide (100 ≤ p.halfmove)
   let mat := !Spec.insufficientMaterial p.board
   "fen=" ++ Spec.toFen p ++ "|key=" ++ hex16 key ++ "|pkey=" ++ hex16 pkey ++
-  "|fkey=" ++ hex16 key ++ "|fpkey=" ++ hex16 pkey ++
+  "|fkey=" ++ hex16 key ++ "|fpkey=" ++ hex16 pkey ++ "|ffen=" ++ Spec.toFen p ++
   "|chk=" ++ b2s (Spec.inCheck p.board p.side) ++ "|mate=" ++ b2s (Spec.isMate p) ++ "|stale=" ++ b2s (Spec.isStalemate p) ++
   "|rep=" ++ b2s (decide (1 ≤ e)) ++ "|three=" ++ b2s (decide (2 ≤ e)) ++ "|r50=" ++ b2s r50 ++
   "|mat=" ++ b2s mat ++ "|draw=" ++ b2s (r50 || decide (2 ≤ e) || !mat) ++
@@ -150,6 +150,9 @@ def stepLine (r : Run) (line : String) : IO Run := do
     else if op = "ztab" then
       out "ztab ok" "ztab ok"
       return { r with T := mkZTable ((args.getD 0 "0").toNat?.getD 0) }
+    else if op = "zcheck" then
+      -- what "per-process random tables" must at least satisfy (12*64 + 16 + 1 + 8 = 793 cells)
+      out "zcheck distinct=1 nonzero=1 n=793" "zcheck distinct=1 nonzero=1 n=793"; return r
     else if op = "pos" then
       let f := String.intercalate " " args
       let mp := ofFen r.T f
@@ -280,6 +283,223 @@ def genPlay (seed ngames maxPlies detailEvery : Nat) (fens : Array String) : IO 
     r := r3
     for l in lines.reverse do IO.println l
 
+
+-- lab generator: constructive motif positions (castling x rook captures, en passant x pins, promotions, checks) -----
+def Rng.pick {α : Type} [Inhabited α] (r : Rng) (l : List α) : Rng × α :=
+  let (r, i) := r.below l.length; (r, l.getD i default)
+
+def putPiece (b : List Nat) (sq pc : Nat) : List Nat := if Spec.pcAt b sq = 0 then b.set sq pc else b
+
+/-- drop `n` random pieces from `kinds` (piece codes) on random empty squares of `b` -/
+def sprinkle (r : Rng) (b : List Nat) (n : Nat) (kinds : List Nat) : Rng × List Nat :=
+  (List.range n).foldl (fun (st : Rng × List Nat) _ =>
+    let (r, sq) := st.1.below 64
+    let (r, pc) := r.pick kinds
+    -- no pawns on the edge ranks
+    if (pc = 1 ∨ pc = 7) ∧ (sq < 8 ∨ sq ≥ 56) then (r, st.2) else (r, putPiece st.2 sq pc)) (r, b)
+
+def emptyBoard : List Nat := List.replicate 64 0
+
+def labCastling (r : Rng) : Rng × Spec.SPos :=
+  let b := (emptyBoard.set 4 6).set 60 12
+  let (r, rights) := r.below 16
+  let rights := if rights = 0 then 15 else rights
+  let b := if rights &&& 1 ≠ 0 then b.set 7 4 else b
+  let b := if rights &&& 2 ≠ 0 then b.set 0 4 else b
+  let b := if rights &&& 4 ≠ 0 then b.set 63 10 else b
+  let b := if rights &&& 8 ≠ 0 then b.set 56 10 else b
+  let (r, n) := r.below 6
+  let (r, side) := r.below 2
+  -- often aim a slider of the side to move at a corner rook of the other side (rook captured on its home square)
+  let (r, aim) := r.below 2
+  let corners : List Nat := if side = 0 then [56, 63] else [0, 7]
+  let (r, corner) := r.pick corners
+  let (r, b) :=
+    if aim = 0 ∧ Spec.pcAt b corner ≠ 0 then
+      let (r, d) := r.pick [((1 : Int), (0 : Int)), (0, 1), (1, 1), (-1, 1), (1, -1), (0, -1), (-1, 0), (-1, -1)]
+      let (r, k) := r.below 6
+      let f := Spec.fileI corner + d.1 * (k + 1); let rk := Spec.rankI corner + d.2 * (k + 1)
+      if Spec.onBoard f rk then
+        let diag := d.1 ≠ 0 && d.2 ≠ 0
+        let (r, q) := r.below 3
+        (r, putPiece b (Spec.sqOf f rk) (Spec.mkPc side (if q = 0 then 5 else if diag then 3 else 4)))
+      else (r, b)
+    else (r, b)
+  let (r, b) := sprinkle r b (n + 1) [2, 3, 3, 4, 4, 5, 8, 9, 9, 10, 10, 11, 1, 7]
+  (r, { board := b, side := side, castling := rights, ep := 64, halfmove := 3, fullmove := 20 })
+
+/-- place a king of colour `kc` and a slider of colour `sc` on opposite sides of square `x` along a random line -/
+def lineMotif (r : Rng) (b : List Nat) (x kc sc : Nat) : Rng × List Nat :=
+  let (r, d) := r.pick [((1 : Int), (0 : Int)), (-1, 0), (0, 1), (0, -1), (1, 1), (1, -1), (-1, 1), (-1, -1)]
+  let (r, k1) := r.below 4
+  let (r, k2) := r.below 4
+  let fx := Spec.fileI x; let rx := Spec.rankI x
+  let kf := fx + d.1 * (k1 + 1); let kr := rx + d.2 * (k1 + 1)
+  let sf := fx - d.1 * (k2 + 1); let sr := rx - d.2 * (k2 + 1)
+  if Spec.onBoard kf kr && Spec.onBoard sf sr then
+    let diag := d.1 ≠ 0 && d.2 ≠ 0
+    let (r, q) := r.below 3
+    let kind := if q = 0 then 5 else if diag then 3 else 4
+    -- remove an existing king of that colour so the motif's king is the only one
+    let b := b.map (fun pc => if pc = Spec.mkPc kc 6 then 0 else pc)
+    let b := putPiece b (Spec.sqOf kf kr) (Spec.mkPc kc 6)
+    (r, putPiece b (Spec.sqOf sf sr) (Spec.mkPc sc kind))
+  else (r, b)
+
+def labEp (r : Rng) : Rng × Spec.SPos :=
+  -- white to move version; mirrored afterwards for black
+  let (r, f) := r.below 8
+  let pushed := 32 + f           -- black pawn on rank 5
+  let ep := 40 + f
+  let b := emptyBoard.set pushed 7
+  let (r, which) := r.below 3     -- 0: left capturer, 1: right, 2: both
+  let b := if (which = 0 ∨ which = 2) ∧ f > 0 then b.set (pushed - 1) 1 else b
+  let b := if (which = 1 ∨ which = 2) ∧ f < 7 then b.set (pushed + 1) 1 else b
+  -- kings: sometimes on the fifth rank (rank discovery), otherwise anywhere
+  let (r, kr) := r.below 3
+  let (r, ks) := r.below 64
+  let wk := if kr = 0 then 32 + ks % 8 else ks
+  let b := putPiece b wk 6
+  let (r, bk) := r.below 64
+  let b := putPiece b bk 12
+  -- line motifs through the pushed pawn / a capturer / the ep square: discovered checks and pins
+  let (r, mot) := r.below 4
+  let (r, x) := r.pick [pushed, pushed, ep, if f > 0 then pushed - 1 else pushed + 1, if f < 7 then pushed + 1 else pushed - 1]
+  let (r, b) :=
+    if mot = 0 then lineMotif r b x 1 0          -- black king, white slider: discovered check by the capture
+    else if mot = 1 then lineMotif r b x 0 1     -- white king, black slider: pin / illegal capture
+    else (r, b)
+  let (r, n) := r.below 4
+  let (r, b) := sprinkle r b n [9, 10, 11, 9, 10, 11, 3, 4, 5, 2, 8, 1, 7]
+  (r, { board := b, side := 0, castling := 0, ep := ep, halfmove := 0, fullmove := 20 })
+
+/-- SAN disambiguation lab: three or four like pieces of the mover that all attack one square -/
+def labSan (r : Rng) : Rng × Spec.SPos :=
+  let (r, t) := r.below 64
+  let (r, kind) := r.pick [2, 2, 3, 4, 4, 5, 5]
+  let origins : List Nat := (List.range 64).filter (fun s =>
+    s ≠ t && (
+      let df := (Spec.fileI s - Spec.fileI t).natAbs; let dr := (Spec.rankI s - Spec.rankI t).natAbs
+      if kind = 2 then (df = 1 ∧ dr = 2) ∨ (df = 2 ∧ dr = 1)
+      else if kind = 3 then df = dr
+      else if kind = 4 then df = 0 ∨ dr = 0
+      else df = dr ∨ df = 0 ∨ dr = 0))
+  let (r, n) := r.below 3
+  let (r, b) := (List.range (n + 2)).foldl (fun (st : Rng × List Nat) _ =>
+    let (r, o) := st.1.pick origins; (r, putPiece st.2 o kind)) (r, emptyBoard)
+  let (r, tp) := r.pick [0, 0, 7, 8, 10]
+  let b := if tp ≠ 0 ∧ ¬ (tp = 7 ∧ (t < 8 ∨ t ≥ 56)) then putPiece b t tp else b
+  let (r, wk) := r.below 64
+  let b := putPiece b wk 6
+  let (r, bk) := r.below 64
+  let b := putPiece b bk 12
+  let (r, m) := r.below 3
+  let (r, b) := sprinkle r b m [9, 10, 11, 8, 7, 1]
+  (r, { board := b, side := 0, castling := 0, ep := 64, halfmove := 2, fullmove := 33 })
+
+def mirrorPos (p : Spec.SPos) : Spec.SPos :=
+  let b := (List.range 64).map (fun s =>
+    let pc := Spec.pcAt p.board ((7 - s / 8) * 8 + s % 8)
+    if pc = 0 then 0 else if pc < 7 then pc + 6 else pc - 6)
+  { board := b, side := 1 - p.side,
+    castling := ((p.castling &&& 3) <<< 2) ||| ((p.castling >>> 2) &&& 3),
+    ep := if p.ep = 64 then 64 else (7 - p.ep / 8) * 8 + p.ep % 8, halfmove := p.halfmove, fullmove := p.fullmove }
+
+def labPromo (r : Rng) : Rng × Spec.SPos :=
+  let (r, n) := r.below 3
+  let (r, b) := (List.range (n + 1)).foldl (fun (st : Rng × List Nat) _ =>
+    let (r, f) := st.1.below 8; (r, putPiece st.2 (48 + f) 1)) (r, emptyBoard)
+  let (r, b) := (List.range 3).foldl (fun (st : Rng × List Nat) _ =>
+    let (r, f) := st.1.below 8
+    let (r, pc) := st.1.pick [8, 9, 10, 11, 0, 0]
+    (r, if pc = 0 then st.2 else putPiece st.2 (56 + f) pc)) (r, b)
+  let (r, wk) := r.below 48
+  let b := putPiece b wk 6
+  let (r, bk) := r.below 64
+  let b := putPiece b bk 12
+  let (r, m) := r.below 4
+  let (r, b) := sprinkle r b m [3, 4, 5, 9, 10, 11, 2, 8, 7]
+  (r, { board := b, side := 0, castling := 0, ep := 64, halfmove := 1, fullmove := 40 })
+
+def labSparse (r : Rng) : Rng × Spec.SPos :=
+  let (r, wk) := r.below 64
+  let b := emptyBoard.set wk 6
+  let (r, bk) := r.below 64
+  let b := putPiece b bk 12
+  let (r, n) := r.below 9
+  let (r, b) := sprinkle r b (n + 1) [1, 2, 3, 4, 5, 7, 8, 9, 10, 11, 3, 4, 5, 9, 10, 11, 2, 8]
+  let (r, side) := r.below 2
+  (r, { board := b, side := side, castling := 0, ep := 64, halfmove := 0, fullmove := 30 })
+
+/-- a reversible four-move shuffle (y, x, y⁻¹, x⁻¹) from `p` if the spec allows it: returns the uci strings -/
+def shuffleFrom (r : Rng) (p : Spec.SPos) : Rng × List String :=
+  let quiet (q : Spec.SPos) (m : Spec.SMove) : Bool :=
+    !Spec.isCaptureMove q m && Spec.kindOfPc (Spec.pcAt q.board m.src) ≠ 1 && m.promo = 0 && !Spec.isCastle q.board m &&
+    Spec.kindOfPc (Spec.pcAt q.board m.src) ≠ 6 && Spec.kindOfPc (Spec.pcAt q.board m.src) ≠ 4
+  let ys := (Spec.legalMoves p).filter (quiet p)
+  match ys with
+  | [] => (r, [])
+  | _ =>
+    let (r, y) := r.pick ys
+    let p1 := Spec.apply p y
+    let xs := (Spec.legalMoves p1).filter (quiet p1)
+    match xs with
+    | [] => (r, [])
+    | _ =>
+      let (r, x) := r.pick xs
+      let p2 := Spec.apply p1 x
+      let yb : Spec.SMove := ⟨y.dst, y.src, 0⟩
+      if !(Spec.legalMoves p2).contains yb then (r, []) else
+      let p3 := Spec.apply p2 yb
+      let xb : Spec.SMove := ⟨x.dst, x.src, 0⟩
+      if !(Spec.legalMoves p3).contains xb then (r, []) else
+      (r, [Spec.uciOf y, Spec.uciOf x, Spec.uciOf yb, Spec.uciOf xb])
+
+partial def genLabLoop (r : Rng) (want : Nat) (tries : Nat) (everyMove : Bool) : IO Unit := do
+  if want = 0 ∨ tries = 0 then return ()
+  let (r, fam) := r.below 12
+  let (r, p) :=
+    if fam ≥ 10 then (let (r, p) := labSan r; let (r, m) := r.below 2; (r, if m = 0 then p else mirrorPos p))
+    else if fam < 3 then labCastling r
+    else if fam < 6 then (let (r, p) := labEp r; let (r, m) := r.below 2; (r, if m = 0 then p else mirrorPos p))
+    else if fam < 8 then (let (r, p) := labPromo r; let (r, m) := r.below 2; (r, if m = 0 then p else mirrorPos p))
+    else labSparse r
+  if Spec.wf p then
+    IO.println ("pos " ++ Spec.toFen p)
+    IO.println "moves"
+    let ms := Spec.legalMoves p
+    let mut rr := r
+    for m in ms do
+      let (r2, k) := rr.below 3
+      rr := r2
+      IO.println ("do " ++ Spec.uciOf m)
+      if everyMove ∨ k = 0 then IO.println "moves"
+      -- second ply: all capturing replies (at most 4) and two random ones, each done and undone
+      let p1 := Spec.apply p m
+      let rs := Spec.legalMoves p1
+      let special := m.promo ≠ 0 ∨ Spec.isCaptureMove p m ∨ Spec.isCastle p.board m
+      if special ∨ k = 1 then
+        let caps := (rs.filter (Spec.isCaptureMove p1)).take 4
+        let (r3, a) := rr.pick (if rs.isEmpty then [m] else rs)
+        rr := r3
+        for q in (if rs.isEmpty then [] else a :: caps) do
+          IO.println ("do " ++ Spec.uciOf q)
+          IO.println "undo"
+      -- repetition motif: after a capture/special move, shuffle back and forth twice
+      if (special ∧ k = 2) ∨ (Spec.isCaptureMove p m ∧ (m.dst = 0 ∨ m.dst = 7 ∨ m.dst = 56 ∨ m.dst = 63)) then
+        let (r4, sh) := shuffleFrom rr p1
+        rr := r4
+        if !sh.isEmpty then
+          for u in sh ++ sh do IO.println ("do " ++ u)
+          for _ in sh ++ sh do IO.println "undo"
+      IO.println "undo"
+    genLabLoop rr (want - 1) (tries - 1) everyMove
+  else genLabLoop r want (tries - 1) everyMove
+
+def genLab (seed n : Nat) (everyMove : Bool) : IO Unit := do
+  IO.println s!"ztab {seed}"
+  genLabLoop ⟨UInt64.ofNat (seed * 104729 + 7)⟩ n (n * 40) everyMove
+
 def readLines (path : String) : IO (Array String) := do
   let txt ← IO.FS.readFile path
   return (txt.splitOn "\n").toArray.filter (fun l => l.trimAscii.toString ≠ "" ∧ !l.startsWith "#")
@@ -294,5 +514,7 @@ def main (args : List String) : IO Unit := do
   | ["gen", "play", seed, ngames, maxPlies, detailEvery, fenfile] =>
     let fens ← readLines fenfile
     genPlay seed.toNat! ngames.toNat! maxPlies.toNat! detailEvery.toNat! fens
+  | ["gen", "lab", seed, n] => genLab seed.toNat! n.toNat! false
+  | ["gen", "labfull", seed, n] => genLab seed.toNat! n.toNat! true
   | "gen" :: rest => genExtra rest
   | _ => IO.eprintln "usage: leandrv run | gen play <seed> <ngames> <maxplies> <detailEvery> <fenfile> | gen <profile> …"
